@@ -17,7 +17,8 @@
     ([store_ok]; [store_ok_init]: the store of a new account does). *)
 From Coq Require Import String Ascii List Bool ZArith.
 From Raven Require Import Base.GoStr Model.Store Model.Ops Model.Conc
-  Proof.ConcStore Proof.ConcInv Proof.ConcAck Proof.ConcNoFail Proof.ConcBounded.
+  Proof.ConcStore Proof.ConcInv Proof.ConcAck Proof.ConcNoFail Proof.ConcBounded
+  Model.ConcInit Proof.ConcInit.
 Import ListNotations.
 Local Open Scope Z_scope.
 
@@ -163,3 +164,46 @@ Theorem c08_no_failure_with_atomic_ops_bounded_partial : forall ps n sch,
   no_failure (run_sched sch (init_cfg s2 ps)) = true.
 Proof. exact c08_bounded_l. Qed.
 Print Assumptions c08_no_failure_with_atomic_ops_bounded_partial.
+
+(** ---- FIRST OPEN of a store, statement by statement, under SQLite's lock rules
+    (Model/ConcInit.v: count; BEGIN; count again; five INSERTs; COMMIT; then the
+    session's own write).  [begin_mode kind] is the transaction mode the code
+    uses for a store of that kind (user store / role-mailbox store): IMMEDIATE
+    for both.  Every schedule, any number of sessions (of any DBManager):
+    nobody is refused, the five default mailboxes are committed at most once,
+    and exactly once as soon as one session is through. *)
+Theorem c08_first_open_no_failure : forall kd k sch,
+  let c := irun sch (iinit_kind kd k) in
+  (forall i t, nth_error (ths c) i = Some t -> it_st t <> IFail) /\
+  (defaults c <= 1)%nat /\
+  (forall i t, nth_error (ths c) i = Some t -> it_st t = IDone -> defaults c = 1%nat).
+Proof. exact c08_first_open_kind_l. Qed.
+Print Assumptions c08_first_open_no_failure.
+
+(** the same for any list of sessions that all begin IMMEDIATE *)
+Theorem c08_first_open_immediate : forall modes sch,
+  Forall (fun m => m = Immediate) modes ->
+  let c := irun sch (iinit modes) in
+  (forall i t, nth_error (ths c) i = Some t -> it_st t <> IFail) /\
+  (defaults c <= 1)%nat /\
+  (forall i t, nth_error (ths c) i = Some t -> it_st t = IDone -> defaults c = 1%nat).
+Proof. exact c08_first_open_l. Qed.
+Print Assumptions c08_first_open_immediate.
+
+(** regression: with a DEFERRED begin the two-step interleaving refutes it — A
+    has executed its first INSERT (holds RESERVED), B counts, begins, counts
+    again and must upgrade SHARED to RESERVED: SQLITE_BUSY at once, B is refused *)
+Example c08_first_open_deferred_refuted :
+  let c := irun [0; 0; 0; 0; 1; 1; 1; 1]%nat (iinit [Deferred; Deferred]) in
+  map it_st (ths c) = [IIns 1; IFail].
+Proof. exact c08_deferred_refuted_l. Qed.
+
+(** the "peer in the middle" schedules of the correspondence suite: holder held
+    before its h-th statement, peer runs, holder released: both acknowledged, one
+    set of defaults, two messages; the peer is blocked exactly while the holder
+    is inside its transaction (h = 2..8) *)
+Theorem c08_first_open_hold_schedules : forall h, (h <= 10)%nat ->
+  eval_hold (Immediate, h) =
+  (1%Z, 1%Z, 1%Z, 2%Z, if ((2 <=? h) && (h <=? 8))%nat then 0%Z else 1%Z).
+Proof. exact c08_hold_cases_l. Qed.
+Print Assumptions c08_first_open_hold_schedules.
